@@ -101,7 +101,7 @@ TOLERATED = [
      "clean tolerates directive errors (README: clean succeeds on erroneous sources)", _g_clean_mode),
     (r"(^|::)IOCtx::write_temp_file$", r"(^|::)AbsPath::try_resolve$",
      "clean: a temp target that does not exist is simply not removed", _g_clean_mode),
-    (r"ignore_err_if_cleaning$", r"^param:self$",
+    (r"(^|::)Pp::<'a>::run_internal$", r"(^|::)Pp::<'a>::iterate_directive$",
      "clean tolerates directive errors: the swallowed error is dropped", _g_clean_mode),
     (r"^txtpp::main$", r"^std::env::var$", "TXTPP_FILE unset is the normal case", None),
     (r"^txtpp::main$", r"^txtpp::txtpp$", "the error was already printed by txtpp(); main maps it to ExitCode::FAILURE (R04.5)", None),
